@@ -650,7 +650,7 @@ func c10Fold(c *Ctx, cs *c10Case, m *c10Model, o *c10Outcome, shrink bool) {
 // ---- runner ----
 
 func runC10(c *Ctx) {
-	c.Res.Rule = "interactive, two script streams on generated profiles (labels, inlining, 1-4 sample types, multi-component absolute file names /build/remote/checkout/proj/src/<pkg>/<file>.go, seven scratch source trees whose basenames are / are not components of those names): (a) ~55% free-form scripts (output file names are reused across commands and shared with output=; user-named files persist between lines and a line's files are those it wrote, byte for byte); (d) 10% undeliverable-output scripts (reports sent to unwritable targets or through missing post-processors, then ordinary probes); (e) 10 FIXED scripts: 2 built-in-command scripts (help / o / options / help <x> / bare option names after each other, forwards and backwards, twice) and 8 repeat scripts, the same whatever the seed: representative lines (top5, tree3, text2, top 5, peek/list/traces/tags/dot3/callgrind2, o, help) each issued 3 times in one session with other commands and assignments in between, every occurrence probed; (c) 10% file-reuse scripts (long report then short report into the same file, via >file or output=, same command twice); (a cont.) — 50% report commands with focus/ignore/count/-cum/>file arguments, 30% assignments of every option incl. invalid values, shortcuts, built-ins, junk; (b) 40% toggle scripts — ONE option (40% source_path/trim_path, else any of the 31 content-relevant options) re-assigned to 2-3 different output-changing values, v1 v2 v3 v1 …, with the same file-/value-sensitive probe command after every re-assignment (list, weblist, top/tree/dot at file or line granularity, traces, tags, callgrind …) and noise reports in between. Real pprof binary, one process per session; every probed line's transcript+files is compared with a fresh session replaying only the assignment lines before it; the Lean model classifies the lines, predicts the options shown by `o` and what each command's arguments contribute (desugared reference). real-binary stream (3 scripts + 2 web cases per quick run): sample.bin/sample.cpu of the tree with the default binutils ObjTool, list/weblist/disasm and /source,/disasm repeated within one session/process; web: each case in five child processes (ref / seq / conc / stall / multi), non-URL options as flags, every 4th profile large enough for pages > 64 KiB: references from a process that serves only the probed requests; r after other requests; the first 12 page renders of a process simultaneously, then r alone, then r among the others; responses still being written to a stalling slow-client ResponseWriter while other URLs are rendered (GOMAXPROCS=1 and N); three sessions over different profiles (A, small B, large C) alive in one process with interleaved requests, each answer vs that profile's fresh-process answer. non-trivial = at least one compared probe is preceded by an executed report command (interactive) / by ≥1 other view request with filter parameters (web); distinct by script text"
+	c.Res.Rule = "interactive, two script streams on generated profiles (labels, inlining, 1-4 sample types, multi-component absolute file names /build/remote/checkout/proj/src/<pkg>/<file>.go, seven scratch source trees whose basenames are / are not components of those names): (a) ~55% free-form scripts (output file names are reused across commands and shared with output=; user-named files persist between lines and a line's files are those it wrote, byte for byte); (d) 10% undeliverable-output scripts (reports sent to unwritable targets or through missing post-processors, then ordinary probes); (e) 10 FIXED scripts: 2 built-in-command scripts (help / o / options / help <x> / bare option names after each other, forwards and backwards, twice) and 8 repeat scripts, the same whatever the seed: representative lines (top5, tree3, text2, top 5, peek/list/traces/tags/dot3/callgrind2, o, help) each issued 3 times in one session with other commands and assignments in between, every occurrence probed; (c) 10% file-reuse scripts (long report then short report into the same file, via >file or output=, same command twice); (a cont.) — 50% report commands with focus/ignore/count/-cum/>file arguments, 30% assignments of every option incl. invalid values, shortcuts, built-ins, junk; (b) 40% toggle scripts — ONE option (40% source_path/trim_path, else any of the 31 content-relevant options) re-assigned to 2-3 different output-changing values, v1 v2 v3 v1 …, with the same file-/value-sensitive probe command after every re-assignment (list, weblist, top/tree/dot at file or line granularity, traces, tags, callgrind …) and noise reports in between. Real pprof binary, one process per session; every probed line's transcript+files is compared with a fresh session replaying only the assignment lines before it; the Lean model classifies the lines, predicts the options shown by `o` and what each command's arguments contribute (desugared reference). real-binary stream (3 scripts + 2 web cases per quick run): sample.bin/sample.cpu of the tree with the default binutils ObjTool, list/weblist/disasm and /source,/disasm repeated within one session/process; web request sequences include /saveconfig and /deleteconfig with varied option parameters (menu cut out of the pages); web: each case in five child processes (ref / seq / conc / stall / multi), non-URL options as flags, every 4th profile large enough for pages > 64 KiB: references from a process that serves only the probed requests; r after other requests; the first 12 page renders of a process simultaneously, then r alone, then r among the others; responses still being written to a stalling slow-client ResponseWriter while other URLs are rendered (GOMAXPROCS=1 and N); three sessions over different profiles (A, small B, large C) alive in one process with interleaved requests, each answer vs that profile's fresh-process answer. non-trivial = at least one compared probe is preceded by an executed report command (interactive) / by ≥1 other view request with filter parameters (web); distinct by script text"
 	if c.Replay != "" {
 		var cs c10Case
 		if err := c.LoadReplay(&cs); err != nil {
@@ -834,6 +834,14 @@ func runC10(c *Ctx) {
 		for k, no := 0, 3+r.Intn(6); k < no; k++ {
 			cs.Others = append(cs.Others, r.c10WebRequest(c10Types(p)))
 		}
+		cs.Others = r.c10WebStateRequests(c10Types(p), cs.Others)
+		for _, o := range cs.Others {
+			if strings.HasPrefix(o, "/saveconfig") {
+				c.Res.Hit("web-saveconfig-request")
+			} else if strings.HasPrefix(o, "/deleteconfig") {
+				c.Res.Hit("web-deleteconfig-request")
+			}
+		}
 		wcases[i] = cs
 	}
 	wcases = append(wcases, largeCases...)
@@ -953,11 +961,9 @@ func c10WebMerge(c *Ctx, cs *c10Case, outs []c10WebOut) {
 		}
 		c.Res.ModelCompared += cr.ModelCompared
 		for _, f := range cr.Findings {
-			if c.Res.sigSeen[f.Kind+f.Signature] {
-				continue
-			}
-			c.Res.sigSeen[f.Kind+f.Signature] = true
-			c.Res.Findings = append(c.Res.Findings, f)
+			// the replay file is written HERE, by the parent, once per signature, with exactly the case that
+			// produced this finding (children of different cases would overwrite each other's files)
+			c.Report(f.Kind, f.Signature, f.What, f.Broken, &t)
 		}
 		if cr.HarnessError != "" {
 			c.Disagree("C10/harness/web-child", "web case child: "+cr.HarnessError, "correspondence harness ~ web handlers", &t)
@@ -985,7 +991,7 @@ func c10WebChild(c *Ctx, cs *c10Case) (*Result, string) {
 	b, _ := json.Marshal(map[string]any{"property": "C10", "case": cs})
 	os.WriteFile(cf, b, 0o644)
 	of := filepath.Join(dir, "out.json")
-	args := []string{"-prop", "C10", "-tier", c.Tier, "-seed", strconv.FormatUint(c.Seed, 10), "-dir", c.Dir, "-out", of, "-replay", cf}
+	args := []string{"-prop", "C10", "-tier", c.Tier, "-seed", strconv.FormatUint(c.Seed, 10), "-dir", filepath.Join(dir, "replays"), "-out", of, "-replay", cf}
 	if c.Drv != nil {
 		args = append(args, "-drv", c.Drv.cmd.Path)
 	}
